@@ -188,13 +188,7 @@ func (e *Ev) evGhostCall(x *ast.CallExpr) Val {
 		if !ok {
 			e.unsupp(x, "inlang needs a language name")
 		}
-		if _, ok := fx.prog.spec.Langs[lid.Name]; !ok && strings.HasPrefix(lid.Name, "anyof_") {
-			var cls strings.Builder
-			for _, h := range strings.Split(strings.TrimPrefix(lid.Name, "anyof_"), "_") {
-				cls.WriteString("\\x" + h)
-			}
-			fx.prog.registerSpecRegex(lid.Name, "(?s)["+cls.String()+"]")
-		}
+		fx.prog.ensureAnyOf(lid.Name)
 		if _, ok := fx.prog.spec.Langs[lid.Name]; !ok {
 			if !strings.HasPrefix(lid.Name, "re_") {
 				panic(unsupported{"unknown language " + lid.Name})
@@ -443,7 +437,11 @@ func (e *Ev) callSpecFunc(sf *SpecFunc, x *ast.CallExpr) Val {
 // specFuncDef renders a spec function as SMT and reports the spec functions / languages it uses.
 func (p *Prog) specFuncDef(sf *SpecFunc) (def string, uses map[string]bool, langs map[string]bool, useSeq bool) {
 	if sf.Prerendered != "" {
-		return sf.Prerendered, map[string]bool{}, map[string]bool{}, false
+		ls := map[string]bool{}
+		for _, l := range sf.PreLangs {
+			ls[l] = true
+		}
+		return sf.Prerendered, map[string]bool{}, ls, len(ls) > 0
 	}
 	fx := &FuncCtx{prog: p, counts: map[string]int{}, trusted: map[string]bool{}, langsUsed: map[string]bool{}, specUsed: map[string]bool{}}
 	var ps []string
